@@ -129,6 +129,7 @@ type VC struct {
 	inlineMode   bool                 // no named intermediate definitions, no assumptions (pure term construction)
 	errAxDone    bool
 	rtypeOf      map[string]Val
+	mapIters     map[ssa.Value]*mapIter
 	statics      []string // initial contents of static table objects (heaps used by this VC)
 	freshKeys    map[string]bool
 	dirty        map[string]bool
